@@ -285,6 +285,14 @@ def check_meta_escapes(ctx, rng, wtree):
         ('fnmatch.fnmatch', lambda t, r: outcome(lambda: [F.fnmatch(n, enc(t), flags=fl(F, r)) for n in names])),
         ('fnmatch.filter(exclude=)', lambda t, r: outcome(lambda: F.filter(names, enc('*'), flags=fl(F, r), exclude=enc(t)))),
         ('glob.globfilter', lambda t, r: outcome(lambda: G.globfilter(names, enc(t), flags=fl(G, r)))),
+        # the escapes sit in a later element of a list / tuple / exclude list
+        ('fnmatch.filter([zz, p])', lambda t, r: outcome(lambda: F.filter(names, [enc('zz'), enc(t)], flags=fl(F, r)))),
+        ('fnmatch.fnmatch((zz, zy, p))', lambda t, r: outcome(lambda: [F.fnmatch(n, (enc('zz'), enc('zy'), enc(t)), flags=fl(F, r)) for n in names])),
+        ('glob.globfilter((zz, p))', lambda t, r: outcome(lambda: G.globfilter(names, (enc('zz'), enc(t)), flags=fl(G, r)))),
+        ('glob.compile([zz, p])', lambda t, r: outcome(lambda: [bool(G.compile([enc('zz'), enc(t)], flags=fl(G, r)).match(n)) for n in names])),
+        ('fnmatch.translate([zz, p])', lambda t, r: outcome(lambda: F.translate([enc('zz'), enc(t)], flags=fl(F, r)))),
+        ('fnmatch.filter(exclude=[zz, p])', lambda t, r: outcome(lambda: F.filter(names, enc('*'), flags=fl(F, r), exclude=[enc('zz'), enc(t)]))),
+        ('glob.glob([zz, p])', lambda t, r: outcome(lambda: sorted(G.glob([enc('zz'), enc(t)], flags=fl(G, r), root_dir=root)))),
         ('glob.translate', lambda t, r: outcome(lambda: G.translate(enc(t), flags=fl(G, r)))),
         ('glob.compile', lambda t, r: outcome(lambda: [bool(G.compile(enc(t), flags=fl(G, r)).match(n)) for n in names])),
         ('glob.globmatch(exclude=)', lambda t, r: outcome(lambda: [G.globmatch(n, enc('**'), flags=fl(G, r) | G.GLOBSTAR, exclude=enc(t)) for n in names])),
